@@ -62,12 +62,13 @@ Definition pop (st : nstate) : nstate :=
   mkst (tl (ps st)) (tl (cs st)) (marks st) (mode st) (overview st).
 
 (* pop_stack(nav_state, count): keep the final position, drop the intermediate Move/Zoom entries of the retries *)
-Fixpoint drop_moves (n : nat) (st : nstate) : nstate * bool (* false = top().unwrap() on an empty stack *) :=
+Fixpoint drop_moves (n : nat) (st : nstate) : nstate * bool (* false = an unwrap on an empty stack; after the repair
+                                                                 of pop_stack the loop stops at an empty stack instead *) :=
   match n with
   | O => (st, true)
   | Datatypes.S n' =>
       match cs st with
-      | [] => (st, false)
+      | [] => (st, true)
       | c :: _ => drop_moves n' (if is_move c then pop st else st)
       end
   end.
@@ -80,7 +81,7 @@ Definition pop_stack (st : nstate) (count : nat) : nstate * bool :=
     | p :: _, c :: _ =>
         let (st', ok) := drop_moves count (pop st) in
         (push p c st', ok)
-    | _, _ => (st, false)
+    | _, _ => (st, true)          (* after the repair: nothing to restore on an empty stack (was pop().unwrap()) *)
     end
   end.
 
